@@ -178,6 +178,9 @@ where
         None
     }
     fn on_new_span(&self, attrs: &Attributes<'_>, id: &Id, ctx: Context<'_, C>) {
+        if is_aux(attrs.metadata()) {
+            return;
+        }
         let mut r = meta_rec(attrs.metadata(), "on_new_span");
         let mut v = ValVisitor { val: 0 };
         attrs.record(&mut v);
@@ -298,6 +301,9 @@ where
         }
     }
     fn on_close(&self, id: Id, ctx: Context<'_, C>) {
+        if ctx.span(&id).map_or(false, |s| is_aux(s.metadata())) {
+            return;
+        }
         let mut r = LRec { kind: "on_close", id: id.into_u64(), ..Default::default() };
         r.cur = ctx.lookup_current().map(|s| s.id().into_u64()).unwrap_or(0);
         match ctx.span(&id) {
